@@ -64,6 +64,10 @@ CHECKS = {
          "Exploration: 500 component-graph UFOs with kerning groups, mark anchors and categories x random skip subsets (nested chains, mirrored references, group members) delivered by argument / UFO lib / both / designspace lib, OTF and TTF, static plus interpolatable and variable strata; each compiled twice by the real compile functions; skipped names must be absent everywhere, the remaining glyphs' contour multisets (OTF exact, TTF within the stored-form error bound), advances, order, cmap, kerning and mark attachment must be unchanged.",
          "Trusts fontTools' readers; TTF cases restricted to line/quadratic sources; feature text without GSUB rules.",
          "DESIGN.md section 5 C13"),
+ "C07": ("runtime monitoring: deep before/after state snapshots of every source object, identity-aliasing check at working-copy creation, recording dicts (tripwires) keyed by call site, source-free failpoints (sys.monitoring) for the raising executions",
+         "Fault enumeration + exploration: every fixture under tests/data with both UFO libraries plus ~480 generated UFOs / designspaces through all nine public compile functions with option combinations and call histories (once, twice, TTF then OTF); late-failing inputs and InjectedFault raised at sampled ufo2ft function entries exercise the 'or raises' clause; after every call the deep snapshot of all layers, libs, info, kerning, groups, features and of the designspace must equal the one taken before; no working glyph set may share an object with a source layer; no tripwire may record a write; inplace=True runs prove the monitor sees mutations.",
+         "Snapshot scope as listed in the evidence assumptions; failpoints sampled, not all entries; faults inside C extensions cannot be injected.",
+         "DESIGN.md section 5 C07, 2.3"),
 }
 
 NOT_APPLICABLE = [
@@ -80,7 +84,8 @@ def main():
             "evidence_file": f"evidence/{pid}.json",
             "replay_cmd_template": f"./check {pid} --replay {{path}}",
             "engine": "vf",
-            "level_claimed": {"category": "exploration", "text": text, "design_ref": ref},
+            "level_claimed": {"category": "fault_enumeration" if pid == "C07" else "exploration",
+                              "text": text, "design_ref": ref},
             "level_note": note,
             "technique": tech,
         })
